@@ -148,6 +148,8 @@ structure Scope where
       variable ↦ name of the JS variable holding its pointer object. For the root context: the package-wide
       `pkgCtx.varPtrNames` of package-level variables. -/
   ptrNames : List (Nat × Name) := []
+  /-- `objectNames` of this context: identity of a function-level object ↦ its JS name -/
+  objNames : List (Nat × Name) := []
 
 /-- package.go:142-144: the root context, `allVars[keyword] = 1` for every reserved word. -/
 def rootScope : Scope :=
@@ -224,6 +226,40 @@ def varPtrName (minify : Bool) (v : Nat) (name : Name) (pkgLevel : Bool) (chain 
       | none => none
       | some (c, nm) => some (recordPtr v nm c, nm)
 
+/-- `assignedObjectName` for function-level objects: this context, then its parents -/
+def lookupObj (o : Nat) : List Scope → Option Name
+  | [] => none
+  | sc :: r =>
+    match sc.objNames.lookup o with
+    | some nm => some nm
+    | none => lookupObj o r
+
+/-- `fc.objectNames[o] = name` -/
+def recordObj (o : Nat) (nm : Name) : List Scope → List Scope
+  | [] => []
+  | sc :: r => { sc with objNames := (o, nm) :: sc.objNames } :: r
+
+/-- utils.go:421-452 `fc.objectName(o)` for an object of this package that is not an exported variable/constant:
+    the name already assigned (package-level objects: in the package context; others: in the context chain), else
+    `fc.newVariable(o.Name(), pkgLevel)` IN THE CURRENT CONTEXT — for a package-level object (e.g. a named type
+    declared in a function body) this reserves the name in the current context and all its parents — recorded in the
+    package context resp. the current one. Returns the new chain, the new package-object table and the name. -/
+def objectName (minify : Bool) (o : Nat) (name : Name) (pkgLevel : Bool) (pkgObjs : List (Nat × Name))
+    (chain : List Scope) : Option (List Scope × List (Nat × Name) × Name) :=
+  match (if pkgLevel then pkgObjs.lookup o else lookupObj o chain) with
+  | some nm => some (chain, pkgObjs, nm)
+  | none =>
+    match newVariable minify name pkgLevel chain with
+    | none => none
+    | some (c, nm) => if pkgLevel then some (c, (o, nm) :: pkgObjs, nm) else some (recordObj o nm c, pkgObjs, nm)
+
+/-- SEEDED-CHANGE SHAPE (not the code): allocate the name of a package-level object in the package context only,
+    i.e. count it in the root scope but not in the function contexts that are being translated. -/
+def allocRootOnly (nm : Name) : List Scope → List Scope
+  | [] => []
+  | [root] => [{ root with vars := root.vars.set nm 1 }]
+  | sc :: r => sc :: allocRootOnly nm r
+
 /-- REPAIRED DEFECT — what the second instantiation of a generic function did before the repair: the name cached by
     another context is appended to `localVars` without being counted in `allVars`. -/
 def oldReusePtr (nm : Name) : List Scope → List Scope
@@ -239,6 +275,9 @@ def oldReusePtr (nm : Name) : List Scope → List Scope
 structure NState where
   chain : List Scope
   pkgNames : List Name
+  /-- `objectNames` of the package context: identity of a package-level object (incl. the named types declared in
+      function bodies, which are package-level in the generated code) ↦ its JS name -/
+  pkgObjs : List (Nat × Name) := []
 
 inductive Op where
   /-- start translating a nested function (`nestedFunctionContext`) -/
@@ -249,6 +288,9 @@ inductive Op where
   | req (name : Name) (pkgLevel : Bool)
   /-- `varPtrName` of the function-level variable `v` (Go name `name`) in the innermost context -/
   | ptr (v : Nat) (name : Name)
+  /-- `objectName` of object `o` (Go name `name`) in the innermost context; `pkgLevel`: a package-level object,
+      e.g. a named type declared in the body of the function being translated -/
+  | obj (o : Nat) (name : Name) (pkgLevel : Bool)
 
 def initState : NState := { chain := [rootScope], pkgNames := [] }
 
@@ -256,7 +298,7 @@ def stepOp (minify : Bool) (st : NState) : Op → Option NState
   | .push fn =>
     match newChild minify fn st.chain with
     | none => none
-    | some (c, nm) => some { chain := c, pkgNames := st.pkgNames ++ [nm] }
+    | some (c, nm) => some { st with chain := c, pkgNames := st.pkgNames ++ [nm] }
   | .pop =>
     match st.chain with
     | _ :: p :: r => some { st with chain := p :: r }
@@ -264,7 +306,16 @@ def stepOp (minify : Bool) (st : NState) : Op → Option NState
   | .req name pk =>
     match newVariable minify name pk st.chain with
     | none => none
-    | some (c, nm) => some { chain := c, pkgNames := if pk then st.pkgNames ++ [nm] else st.pkgNames }
+    | some (c, nm) => some { st with chain := c, pkgNames := if pk then st.pkgNames ++ [nm] else st.pkgNames }
+  | .obj o name pk =>
+    match (if pk then st.pkgObjs.lookup o else lookupObj o st.chain) with
+    | some _ => some st
+    | none =>
+      match newVariable minify name pk st.chain with
+      | none => none
+      | some (c, nm) =>
+        if pk then some { chain := c, pkgNames := st.pkgNames ++ [nm], pkgObjs := (o, nm) :: st.pkgObjs }
+        else some { st with chain := recordObj o nm c }
   | .ptr v name =>
     match varPtrName minify v name false st.chain with
     | none => none
